@@ -335,6 +335,24 @@ def extract(ctx):
     if bad:
         ctx.assumptions.append(f"_ast_fields differ from the AST signature of __init__ for {bad}")
     ctx._c03_table = (entries, probes)
+    try:
+        from funsor.ops.op import Op
+        found = []
+        for n_ in sorted(dir(ops)):
+            o_ = getattr(ops, n_)
+            if isinstance(o_, Op) and getattr(o_, "arity", 1) == 1:
+                try:
+                    ps_ = list(inspect.signature(o_.default if hasattr(o_, "default") else o_).parameters)
+                except (TypeError, ValueError):
+                    continue
+                if len(ps_) > 1:
+                    found.append(n_)
+        ctx.extra["parametrised_unary_ops"] = {"found_in_funsor.ops": found,
+                                               "generated": [n_ for n_ in found if n_ in W.PUNARY_GENERATED] +
+                                                            (["getslice"] if "getslice" not in found else []),
+                                               "not_generated": [n_ for n_ in found if n_ not in W.PUNARY_GENERATED]}
+    except Exception as e_:
+        ctx.extra["parametrised_unary_ops"] = {"error": repr(e_)[:200]}
 
 
 # ---------------------------------------------------------------------------------------------
@@ -473,6 +491,14 @@ def py_of(r):
         return f"({py_of(r[2])}).reduce(ops.{gen_terms._pyop(r[1])})"
     if r[0] == "align":
         return f"({py_of(r[1])}).align({tuple(r[2])!r})"
+    if r[0] == "punary":
+        return f"ops.{r[1]}({py_of(r[3])}, " + ", ".join(repr(p) for p in r[2]) + ")"
+    if r[0] == "pslice":
+        return f"({py_of(r[2])})[" + ", ".join("slice(%r, %r, %r)" % s_ for s_ in r[1]) + "]"
+    if r[0] == "tensor" and r[3]:
+        _, ins_, dtype_, ev_, data_ = r
+        return (f"Tensor(np.array({data_.tolist()}, dtype=np.float64), OrderedDict([" +
+                ", ".join(f"({n!r}, Bint[{s_}])" for n, s_ in ins_) + f"]), {dtype_!r})")
     if r[0] == "subs":
         return f"({py_of(r[1])})(**{{" + ", ".join(f"{k!r}: {py_of(v)}" for k, v in r[2]) + "})"
     if r[0] == "var" and not isinstance(r[2], int):
@@ -758,6 +784,9 @@ def spec_requests(ctx, cs):
         except IllFormed as e:
             ctx.count(f"spec-ill-formed:{str(e).split(':')[0][:30]}")
             continue
+        if env.get("__pyoracle__"):
+            ctx.count("spec-skipped:python-oracle route (ops outside Lean's Term; numpy oracle is a mode)")
+            continue
         if env.get("__approx__"):
             ctx.count("spec-skipped:inexact-ops (reference = eager build, rounded)")
             continue
@@ -847,6 +876,10 @@ def correspond(ctx):
                 "1/12 the same operand twice under every associative op (add, mul, max, min, logaddexp rounded, and_/or_/xor on "
                 "Bint[2] data): (t.u).t, t.t, t.(u.t), (t.u).(t.u), ((t.u).t).u, t a leaf / a compound built twice / a reduction, "
                 "also with a free Variable inside t (the eager build stays lazy), "
+                "1/12 directly nested parametrised array ops (flip, transpose, getslice incl. negative steps, unsqueeze, "
+                "sum/prod/amax/amin(axis, keepdims), clamp; same class with other parameters, same parameters twice, inverse pairs "
+                "neg/neg, reciprocal/reciprocal, exp/log; triples) on asymmetric data with non-cubic event shapes, checked "
+                "against a numpy oracle (python-oracle route: Lean's Term lacks these ops), "
                 "1/12 user-defined terms made with funsor.factory.make_funsor (15 classes: every declaration order of Bound / "
                 "Funsor / Has / Fresh parameters, one and two binders, Fresh output names; bare, followed by .reduce(op) over ALL "
                 "inputs, by (t+z).reduce(op), or by substituting an index tensor that depends on a free variable named like the "
